@@ -115,7 +115,7 @@ def _is(level, row, flag):
     return r is not None and r.flag(flag)
 
 
-def project(diff, side, old, new, level):
+def project(diff, side, old, new, level, parent_op=None):
     """reconstruct one input from the diff: drop ADDED entries for 'old', REMOVED for 'new'"""
     from annet.annlib.types import Op
     out = odict()
@@ -126,9 +126,10 @@ def project(diff, side, old, new, level):
         if op == drop:
             continue
         r, k, child = level.match(row)
-        out[row] = project(children, side, (old or {}).get(row), (new or {}).get(row), child) if child else odict()
-    if not shown_rewrite:
-        # an unchanged %rewrite group is omitted from the diff: legitimate only if both sides agree on it
+        out[row] = project(children, side, (old or {}).get(row), (new or {}).get(row), child, op) if child else odict()
+    if not shown_rewrite and parent_op not in (Op.MOVED, Op.ADDED, Op.REMOVED):
+        # an unchanged %rewrite group is omitted from the diff: legitimate only if both sides agree on it AND the enclosing
+        # row stays in place (a moved row is dropped and re-created, so its body has to be listed)
         ro = [(row, refdev._plain((old or {})[row])) for row in (old or {}) if _is(level, row, "rewrite")]
         rn = [(row, refdev._plain((new or {})[row])) for row in (new or {}) if _is(level, row, "rewrite")]
         if ro == rn:
